@@ -352,33 +352,74 @@ func c12r2(p *Program, r *Report) {
 				idx = append(idx, exprStr(c.Args[1]))
 			}
 		}
-		r.Check(len(idx) == 3 && idx[0] == "0" && idx[1] == "i" && idx[2] == "i", fi.Decl, "decVints reads three consecutive vints", strings.Join(idx, ","), "decVints does not read three vints each starting where the previous ended")
+		// each call starts where the previous one ended: its start argument is the variable the previous call's
+		// second result was bound to
+		okChain := len(idx) == 3 && idx[0] == "0"
+		var prevEnd string
+		k := 0
+		ast.Inspect(fi.Decl.Body, func(x ast.Node) bool {
+			as, ok := x.(*ast.AssignStmt)
+			if !ok || len(as.Rhs) != 1 || len(as.Lhs) != 3 {
+				return true
+			}
+			c, ok := ast.Unparen(as.Rhs[0]).(*ast.CallExpr)
+			if !ok || !isCallTo(info, c, "decVint") || len(c.Args) != 2 {
+				return true
+			}
+			if k > 0 && (prevEnd == "" || prevEnd == "_" || exprStr(c.Args[1]) != prevEnd) {
+				okChain = false
+			}
+			prevEnd = exprStr(as.Lhs[1])
+			k++
+			return true
+		})
+		r.Check(okChain && k == 3, fi.Decl, "decVints reads three consecutive vints", strings.Join(idx, ","), "decVints does not read three vints each starting where the previous ended")
 	}
 	if fi := r.NeedFunc("marshalDecimal"); fi != nil {
 		info := fi.Pkg.TypesInfo
 		var scale4, unscaledAt4, viaEnc bool
+		// the output buffer: make([]byte, 4+len(U)); U holds encBigInt2C(v.UnscaledBig())
+		bufName, unscaledName := "", ""
+		ast.Inspect(fi.Decl.Body, func(x ast.Node) bool {
+			as, ok := x.(*ast.AssignStmt)
+			if !ok || len(as.Lhs) != 1 || len(as.Rhs) != 1 {
+				return true
+			}
+			c, ok := ast.Unparen(as.Rhs[0]).(*ast.CallExpr)
+			if !ok {
+				return true
+			}
+			if calleeName(info, c) == "builtin.make" && len(c.Args) == 2 {
+				if name, k, ok := constPlusLen(info, c.Args[1]); ok && k == 4 {
+					bufName, unscaledName = exprStr(as.Lhs[0]), name
+				}
+			}
+			return true
+		})
 		ast.Inspect(fi.Decl.Body, func(x ast.Node) bool {
 			c, ok := x.(*ast.CallExpr)
 			if !ok {
 				return true
 			}
-			if exprStr(c.Fun) == "copy" && len(c.Args) == 2 {
-				dst := strings.ReplaceAll(exprStr(c.Args[0]), " ", "")
-				if dst == "buf[0:4]" || dst == "buf[:4]" {
+			if exprStr(c.Fun) == "copy" && len(c.Args) == 2 && bufName != "" {
+				b, lo, hi, okR := p.regionConst(fi, c.Args[0])
+				if okR && b == bufName && lo == 0 && hi == 4 {
 					if ic, ok := c.Args[1].(*ast.CallExpr); ok && isCallTo(info, ic, "encInt") && strings.Contains(exprStr(ic.Args[0]), "Scale()") {
 						scale4 = true
 					}
 				}
-				if dst == "buf[4:]" && exprStr(c.Args[1]) == "unscaled" {
+				if okR && b == bufName && lo == 4 && hi < 0 && exprStr(c.Args[1]) == unscaledName {
 					unscaledAt4 = true
 				}
 			}
 			if isCallTo(info, c, "encBigInt2C") && strings.Contains(exprStr(c.Args[0]), "UnscaledBig()") {
-				viaEnc = true
+				if as, ok := p.Parent(c).(*ast.AssignStmt); ok && len(as.Lhs) >= 1 && exprStr(as.Lhs[0]) == unscaledName {
+					viaEnc = true
+				}
 			}
-			if calleeName(info, c) == "binary.(bigEndian).PutUint32" && len(c.Args) == 2 {
-				dst := strings.ReplaceAll(exprStr(c.Args[0]), " ", "")
-				if (dst == "buf[0:4]" || dst == "buf[:4]" || dst == "buf") && strings.Contains(exprStr(c.Args[1]), "Scale()") {
+			if calleeName(info, c) == "binary.(bigEndian).PutUint32" && len(c.Args) == 2 && bufName != "" {
+				b, lo, _, okR := p.regionConst(fi, c.Args[0])
+				if okR && b == bufName && lo == 0 && strings.Contains(exprStr(c.Args[1]), "Scale()") {
 					scale4 = true
 				}
 			}
@@ -389,15 +430,25 @@ func c12r2(p *Program, r *Report) {
 	if fi := r.NeedFunc("unmarshalDecimal"); fi != nil {
 		info := fi.Pkg.TypesInfo
 		okS, okU := false, false
+		dataName := "data"
+		if po := paramObj(info, fi.Decl.Type, 1); po != nil {
+			dataName = po.Name()
+		}
 		for _, c := range callsIn(fi.Decl.Body) {
-			a := ""
-			if len(c.Args) > 0 {
-				a = strings.ReplaceAll(exprStr(c.Args[0]), " ", "")
+			if len(c.Args) == 0 {
+				continue
 			}
-			if isCallTo(info, c, "decInt") && (a == "data[0:4]" || a == "data[:4]") {
+			b, lo, hi, okR := p.regionConst(fi, c.Args[0])
+			if !okR || b != dataName {
+				continue
+			}
+			if isCallTo(info, c, "decInt") && lo == 0 && hi == 4 {
 				okS = true
 			}
-			if isCallTo(info, c, "decBigInt2C") && a == "data[4:]" {
+			if calleeName(info, c) == "binary.(bigEndian).Uint32" && lo == 0 {
+				okS = true
+			}
+			if isCallTo(info, c, "decBigInt2C") && lo == 4 && hi < 0 {
 				okU = true
 			}
 		}
@@ -665,7 +716,7 @@ func c12r4(p *Program, r *Report) {
 						okForms++
 					}
 				case *ast.BinaryExpr:
-					if e.Op == token.ADD && isMillisOfTime(e) {
+					if e.Op == token.ADD && isMillisOfTime(fn.Pkg.TypesInfo, e) {
 						okForms++
 						return false
 					}
@@ -776,15 +827,25 @@ func c12r4(p *Program, r *Report) {
 					return true
 				}
 				var other ast.Expr
+				isDayMs := func(e ast.Expr) bool {
+					k, ok := constInt(finfo, ast.Unparen(e))
+					return ok && k == 24*60*60*1000
+				}
 				switch {
-				case exprStr(ast.Unparen(m.Y)) == "millisecondsInADay":
+				case isDayMs(m.Y):
 					other = m.X
-				case exprStr(ast.Unparen(m.X)) == "millisecondsInADay":
+				case isDayMs(m.X):
 					other = m.Y
 				default:
 					return true
 				}
-				sub, ok := ast.Unparen(other).(*ast.BinaryExpr)
+				// the day count may be held in a local first
+				if oid, isId := ast.Unparen(stripAllConv(finfo, other)).(*ast.Ident); isId && finfo.Uses[oid] != nil && singleAssigned(finfo, fn.Decl.Body, finfo.Uses[oid]) {
+					if d := localDef(finfo, fn, oid); d != nil {
+						other = d
+					}
+				}
+				sub, ok := ast.Unparen(stripAllConv(finfo, other)).(*ast.BinaryExpr)
 				if !ok || sub.Op != token.SUB {
 					return true
 				}
@@ -835,9 +896,57 @@ func c12r4(p *Program, r *Report) {
 				return true
 			})
 		}
+		// time.Unix(S, N) with S := X / 1000 and N := (X - S*1000) * 1000000 (names free, constants evaluated)
+		split, splitSeen := false, false
+		for _, fn := range withHelpers(fi) {
+			finfo := fn.Pkg.TypesInfo
+			isK := func(e ast.Expr, k int64) bool {
+				v, ok := constInt(finfo, ast.Unparen(e))
+				return ok && v == k
+			}
+			for _, c := range callsIn(fn.Decl.Body) {
+				if calleeName(finfo, c) != "time.Unix" || len(c.Args) != 2 {
+					continue
+				}
+				splitSeen = true
+				sid, ok1 := ast.Unparen(c.Args[0]).(*ast.Ident)
+				nid, ok2 := ast.Unparen(c.Args[1]).(*ast.Ident)
+				if !ok1 || !ok2 {
+					continue
+				}
+				sd, nd := localDef(finfo, fn, sid), localDef(finfo, fn, nid)
+				if sd == nil || nd == nil {
+					continue
+				}
+				q, ok := ast.Unparen(sd).(*ast.BinaryExpr)
+				if !ok || q.Op != token.QUO || !isK(q.Y, 1000) {
+					continue
+				}
+				x := exprStr(ast.Unparen(q.X))
+				m, ok := ast.Unparen(nd).(*ast.BinaryExpr)
+				if !ok || m.Op != token.MUL || !isK(m.Y, 1000000) {
+					continue
+				}
+				d, ok := ast.Unparen(m.X).(*ast.BinaryExpr)
+				if !ok || d.Op != token.SUB || exprStr(ast.Unparen(d.X)) != x {
+					continue
+				}
+				sm, ok := ast.Unparen(d.Y).(*ast.BinaryExpr)
+				if !ok || sm.Op != token.MUL {
+					continue
+				}
+				if (exprStr(ast.Unparen(sm.X)) == sid.Name && isK(sm.Y, 1000)) || (exprStr(ast.Unparen(sm.Y)) == sid.Name && isK(sm.X, 1000)) {
+					split = true
+				}
+			}
+		}
 		switch {
 		case viaLib:
 			r.OK(fi.Decl, "unmarshalTimestamp converts milliseconds to a time", "time.UnixMilli")
+		case split:
+			r.OK(fi.Decl, "unmarshalTimestamp converts milliseconds to a time", "time.Unix(x/1000, (x - sec*1000)*1e6)")
+		case splitSeen && (sec == "" || nsec == ""):
+			r.Bad(fi.Decl, "unmarshalTimestamp converts milliseconds to a time", "milliseconds are not split as sec = x/1000, nsec = (x - sec*1000)*1e6")
 		case sec == "" || nsec == "":
 			r.Unresolved("unmarshalTimestamp: neither time.UnixMilli nor a sec/nsec split found")
 		default:
@@ -855,33 +964,32 @@ func c12r4(p *Program, r *Report) {
 	}
 }
 
-func isMillisOfTime(e ast.Expr) bool {
-	b, ok := ast.Unparen(e).(*ast.BinaryExpr)
+func isMillisOfTime(info *types.Info, e ast.Expr) bool {
+	b, ok := ast.Unparen(stripAllConv(info, e)).(*ast.BinaryExpr)
 	if !ok || b.Op != token.ADD {
 		return false
 	}
-	has := func(x ast.Expr, method string, op token.Token, consts ...string) bool {
-		found := false
-		ast.Inspect(x, func(n ast.Node) bool {
-			be, ok := n.(*ast.BinaryExpr)
-			if !ok || be.Op != op {
-				return true
-			}
-			l := strings.ReplaceAll(exprStr(be.X), " ", "")
-			rr := strings.ReplaceAll(exprStr(be.Y), " ", "")
-			if strings.HasSuffix(l, "."+method+"()") {
-				for _, c := range consts {
-					if rr == c {
-						found = true
-					}
-				}
-			}
+	// <time>.Unix() * 1000 and <time>.Nanosecond() / 1000000, conversions anywhere
+	part := func(x ast.Expr, method string, op token.Token, k int64) bool {
+		be, ok := ast.Unparen(stripAllConv(info, x)).(*ast.BinaryExpr)
+		if !ok || be.Op != op {
+			return false
+		}
+		isCall := func(y ast.Expr) bool {
+			c, ok := ast.Unparen(stripAllConv(info, y)).(*ast.CallExpr)
+			return ok && calleeName(info, c) == "time.(Time)."+method
+		}
+		isK := func(y ast.Expr) bool {
+			v, ok := constInt(info, ast.Unparen(stripAllConv(info, y)))
+			return ok && v == k
+		}
+		if isCall(be.X) && isK(be.Y) {
 			return true
-		})
-		return found
+		}
+		return op == token.MUL && isCall(be.Y) && isK(be.X)
 	}
-	secs := func(x ast.Expr) bool { return has(x, "Unix", token.MUL, "1e3", "1000") }
-	nanos := func(x ast.Expr) bool { return has(x, "Nanosecond", token.QUO, "1e6", "1000000") }
+	secs := func(x ast.Expr) bool { return part(x, "Unix", token.MUL, 1000) }
+	nanos := func(x ast.Expr) bool { return part(x, "Nanosecond", token.QUO, 1000000) }
 	return secs(b.X) && nanos(b.Y) || secs(b.Y) && nanos(b.X)
 }
 
@@ -1385,6 +1493,64 @@ func c12r6(p *Program, r *Report) {
 				}
 				return true
 			})
+			if !be {
+				// ascending form: for i := 0; i < size; i++ { buf[size-1-i] = byte(v >> (8*i)) }
+				ast.Inspect(fi.Decl.Body, func(x ast.Node) bool {
+					f, ok := x.(*ast.ForStmt)
+					if !ok || len(f.Body.List) != 1 {
+						return true
+					}
+					k, _, isIdx := indexLoopBounds(info, f)
+					a, isAs := f.Body.List[0].(*ast.AssignStmt)
+					if !isIdx || !isAs || len(a.Lhs) != 1 || len(a.Rhs) != 1 || a.Tok != token.ASSIGN {
+						return true
+					}
+					ix, isIx := ast.Unparen(a.Lhs[0]).(*ast.IndexExpr)
+					if !isIx {
+						return true
+					}
+					// index: (size-1) - i
+					sub, isSub := ast.Unparen(ix.Index).(*ast.BinaryExpr)
+					if !isSub || sub.Op != token.SUB || exprStr(ast.Unparen(sub.Y)) != k {
+						return true
+					}
+					topE := ast.Unparen(sub.X)
+					if tid, isId := topE.(*ast.Ident); isId && info.Uses[tid] != nil && singleAssigned(info, fi.Decl.Body, info.Uses[tid]) {
+						if d := localDef(info, fi, tid); d != nil {
+							topE = d
+						}
+					}
+					top := strings.ReplaceAll(exprStr(topE), " ", "")
+					top = strings.NewReplacer("(", "", ")", "").Replace(top)
+					if top != exprStr(sizeExpr)+"-1" {
+						return true
+					}
+					// value: byte(v >> (8*i))
+					cv, isCv := ast.Unparen(a.Rhs[0]).(*ast.CallExpr)
+					if !isCv || len(cv.Args) != 1 {
+						return true
+					}
+					if tv, isT := info.Types[cv.Fun]; !isT || !tv.IsType() || !isByteType(tv.Type) {
+						return true
+					}
+					sh, isSh := ast.Unparen(cv.Args[0]).(*ast.BinaryExpr)
+					if !isSh || sh.Op != token.SHR || exprStr(ast.Unparen(sh.X)) != zz {
+						return true
+					}
+					m, isM := ast.Unparen(stripAllConv(info, ast.Unparen(sh.Y))).(*ast.BinaryExpr)
+					if !isM || m.Op != token.MUL {
+						return true
+					}
+					l, rr := ast.Unparen(stripAllConv(info, ast.Unparen(m.X))), ast.Unparen(stripAllConv(info, ast.Unparen(m.Y)))
+					if c8, isC := constInt(info, l); isC && c8 == 8 && exprStr(rr) == k {
+						be = true
+					}
+					if c8, isC := constInt(info, rr); isC && c8 == 8 && exprStr(l) == k {
+						be = true
+					}
+					return true
+				})
+			}
 			r.Check(be, fi.Decl, "encVint payload is big-endian", "buf[i] = byte(v); v >>= 8 for i descending", "the vint payload bytes are not written most-significant first")
 		}
 	}
@@ -1573,4 +1739,82 @@ func substIdents(s string, subst map[string]string) string {
 		i++
 	}
 	return sb.String()
+}
+
+// regionConst: e denotes base[lo:hi] (locals and nested re-slices expanded, named constants evaluated); hi is -1 for
+// an open end.
+func (p *Program) regionConst(fi *FuncInfo, e ast.Expr) (base string, lo, hi int64, ok bool) {
+	info := fi.Pkg.TypesInfo
+	e = ast.Unparen(p.expandExpr(fi, e, 0))
+	switch x := e.(type) {
+	case *ast.Ident:
+		return x.Name, 0, -1, true
+	case *ast.SelectorExpr:
+		return exprStr(x), 0, -1, true
+	case *ast.SliceExpr:
+		b, l0, h0, okB := p.regionConst(fi, x.X)
+		if !okB {
+			return "", 0, 0, false
+		}
+		nl, nh := l0, h0
+		if x.Low != nil {
+			k, isK := constInt(info, stripParens(x.Low))
+			if !isK {
+				return "", 0, 0, false
+			}
+			nl = l0 + k
+		}
+		if x.High != nil {
+			k, isK := constInt(info, stripParens(x.High))
+			if !isK {
+				return "", 0, 0, false
+			}
+			nh = l0 + k
+		}
+		return b, nl, nh, true
+	}
+	return "", 0, 0, false
+}
+
+// constPlusLen: e is <const> + len(<ident>) in either order: the identifier and the constant.
+func constPlusLen(info *types.Info, e ast.Expr) (string, int64, bool) {
+	b, ok := ast.Unparen(e).(*ast.BinaryExpr)
+	if !ok || b.Op != token.ADD {
+		return "", 0, false
+	}
+	for _, pr := range [][2]ast.Expr{{b.X, b.Y}, {b.Y, b.X}} {
+		k, isK := constInt(info, pr[0])
+		c, isC := ast.Unparen(pr[1]).(*ast.CallExpr)
+		if isK && isC && exprStr(c.Fun) == "len" && len(c.Args) == 1 {
+			if id, isId := ast.Unparen(c.Args[0]).(*ast.Ident); isId {
+				return id.Name, k, true
+			}
+		}
+	}
+	return "", 0, false
+}
+
+// indexLoopBounds recognises `for k := 0; k < N; k++` whose body never writes k: the index variable and N.
+func indexLoopBounds(info *types.Info, f *ast.ForStmt) (string, ast.Expr, bool) {
+	init, ok := f.Init.(*ast.AssignStmt)
+	if !ok || init.Tok != token.DEFINE || len(init.Lhs) != 1 || len(init.Rhs) != 1 {
+		return "", nil, false
+	}
+	kid, ok := init.Lhs[0].(*ast.Ident)
+	if !ok {
+		return "", nil, false
+	}
+	if z, isC := constInt(info, init.Rhs[0]); !isC || z != 0 {
+		return "", nil, false
+	}
+	obj := info.Defs[kid]
+	cond, ok := ast.Unparen(f.Cond).(*ast.BinaryExpr)
+	if !ok || cond.Op != token.LSS || !isIdentOf(info, cond.X, obj) {
+		return "", nil, false
+	}
+	post, ok := f.Post.(*ast.IncDecStmt)
+	if !ok || post.Tok != token.INC || !isIdentOf(info, post.X, obj) || !neverAssigned(info, f.Body, obj) {
+		return "", nil, false
+	}
+	return kid.Name, cond.Y, true
 }
